@@ -282,9 +282,16 @@ def _inline_helper(b, t, fn, args, carr, loc, out):
     finally:
         _INLINING.pop()
     mapping = {("param", h.local_name(i + 1)): args[i] for i in range(h.arg_count)}
+    # the helper's own locals and loop counters get ids in a range reserved for it in this body, so that rules
+    # asking the body about them (names, types, iterator sources) are answered from the helper
+    off_box = []
 
     def tr(x):
-        return mir.subst_expr(x, mapping) if isinstance(x, tuple) else x
+        if not isinstance(x, tuple):
+            return x
+        return mir.subst_expr(mir.rebase_locals(x, off_box[0], h, b), mapping)
+
+    off_box.append(b.register_foreign((h.key, repr(sorted(mapping.items(), key=repr))), h, tr))
 
     for e in hevs:
         d = {}
@@ -313,7 +320,7 @@ def is_zero_data(e):
     e = mir.strip_casts(e)
     if e[0] == "repeat":
         v = e[1]
-        return v == ("assoc", "ZERO", v[2]) if v[0] == "assoc" else v == ("int", 0)
+        return v[1] == "ZERO" if v[0] == "assoc" else v == ("int", 0)
     if is_call(e, "into_boxed_slice") and e[3]:
         return is_zero_data(e[3][0])
     if is_call(e, "collect") and e[3]:
